@@ -287,8 +287,8 @@ func (e *c03Exec) checkResult(in *inputs, where string, res system.Collection) {
 	}
 }
 
-func execC03(t *testing.T, c *Case) *Verdict {
-	v := &Verdict{}
+func execC03(t *testing.T, c *Case) (v *Verdict) {
+	v = &Verdict{}
 	v.Stats.Runs = 1
 	e := &c03Exec{c: c, v: v}
 	defer func() {
